@@ -29,6 +29,11 @@ THEOREMS = [
     'SolveM.krylov_reports_returned_field',
     'SolveM.krylov_abort_is_failure',
     'SolveM.terminate_converged_iff',
+    # clause PEC over the whole-cycle model (Props/CyclePEC.lean)
+    'Emg.mgRun_frame',
+    'Emg.mgRun_pec',
+    'Emg.mgRun_keeps_boundary_value',
+    'Emg.runTrace_allPec',
 ]
 
 
@@ -420,11 +425,14 @@ def monitors(ctx, c, grid, model, sf, ef, info, before, ran_krylov=False):
 
 
 def run(ctx):
-    ctx.lean('Emg3dVerif.Props.C01', THEOREMS)
+    ctx.lean('Emg3dVerif.Props.CyclePEC', THEOREMS)
     ctx.assumptions += [
-        'what one multigrid cycle / one Krylov step does to the field is an '
-        'oracle (recorded residual norms); that a small residual is reached '
-        'is checked per run by the independent assembly (numeric half)',
+        'what one multigrid cycle / one Krylov step does to the residual '
+        'norm is an oracle (recorded residual norms); that a small residual '
+        'is reached is checked per run by the independent assembly (numeric '
+        'half). Clause PEC is proved for plain multigrid on the whole-cycle '
+        'model (Emg.mgRun_pec; model tied to solver.multigrid by the cycle '
+        'suite of C03); for the Krylov path it is monitored per run',
         "SciPy's recurrence residual ~ true residual (monitored)",
     ]
     rng = ctx.nprng('cfg')
